@@ -250,11 +250,14 @@ class Server:
           in the servlet will eventually see the sentinel and exit.
         - Wait for the servlet and all helper threads to exit.
         """
-        self.servlet.stop()
-        self._gather_thread.join()
         if self._onboard_thread is not None:
+            # Flush the input buffer first: if the workers were stopped while the onboarding
+            # thread still had (abandoned) requests to write, nobody would read the pipe any more
+            # and that thread---hence this method---would block forever once the pipe is full.
             self._input_buffer.put(None)
             self._onboard_thread.join()
+        self.servlet.stop()
+        self._gather_thread.join()
 
     def call(self, x, /, *, timeout: int | float = 60, backpressure: bool = True):
         """
@@ -528,6 +531,10 @@ class AsyncServer:
         return self
 
     async def __aexit__(self, *args):
+        if self._onboard_thread is not None:
+            # See `Server.__exit__`.
+            self._input_buffer.put(None)
+            self._onboard_thread.join()
         self.servlet.stop()
         self._gather_thread.join()
 
@@ -545,10 +552,6 @@ class AsyncServer:
                     await asyncio.wait_for(pipenotfull.wait(), 0.01)
                 except asyncio.TimeoutError:
                     pass
-
-        if self._onboard_thread is not None:
-            self._input_buffer.put(None)
-            self._onboard_thread.join()
 
     async def call(self, x, /, *, timeout: int | float = 60, backpressure: bool = True):
         """
